@@ -179,8 +179,12 @@ func expect(p *Pool, o Op) Expect {
 				return one("Nil Argument")
 			}
 		}
-		if m.SenderNodeInterface() == i {
-			return one("ReceiverIsSender AddEntity")
+		// on the contents: the interface lists the message among those it sends (not the back pointer of
+		// the message, which names only the last interface after a re-attach)
+		for _, sm := range i.SentMessages() {
+			if sm == m {
+				return one("ReceiverIsSender AddEntity")
+			}
 		}
 	case "IfRemoveReceived":
 		i, id := p.iface(a(0)), p.eid(a(1))
